@@ -5,6 +5,7 @@ package hmirror
 import (
 	"context"
 	"fmt"
+	"os"
 	"sort"
 	"strconv"
 	"strings"
@@ -540,6 +541,95 @@ func (nw *netw) adversary(st *advState) (did []string, consume bool) {
 	return did, false
 }
 
+// advForged drives the scripted adversary "forged-relay": the Byzantine validator relays, to one correct node (the
+// victim, node 2) and ahead of the original, a copy of every honest proposal in which the listed next validators were
+// rewritten (its own power raised beyond everyone else's) while hashes and signature are left as they were; at each
+// later height, when the victim proposes, the Byzantine validator proposes its own block to the victim and precommits
+// it there, while it supports the victim's block at the other nodes. A node that took the rewritten list for the real
+// one would weigh nobody's precommits but that one.
+type advForged struct {
+	forged   map[int]bool
+	attacked map[uint64]bool
+}
+
+func (nw *netw) adversaryForged(st *advForged) (did []string, consume bool) {
+	const victim = 2
+	w := nw.w
+	v := nw.nodes[victim]
+	if v.e == nil {
+		return nil, false
+	}
+	for _, d := range nw.queue {
+		if d.done {
+			continue
+		}
+		m := nw.msgs[d.msg]
+		if m.kind == "ph" && d.to == victim && m.from >= 0 && !st.forged[m.id] {
+			st.forged[m.id] = true
+			f := m.ph
+			vals := append([]tmconsensus.Validator{}, f.Header.NextValidatorSet.Validators...)
+			for i := range vals {
+				if vals[i].PubKey.Equal(w.keys[byzIdx].Val.PubKey) {
+					vals[i].Power = 1_000_000_000
+				}
+			}
+			f.Header.NextValidatorSet.Validators = vals
+			r := v.call("HandleProposedHeader", func(ctx context.Context) string { return v.e.HandleProposedHeader(ctx, f).String() })
+			did = append(did, fmt.Sprintf("adv: copy of the proposal %d/%d %s with rewritten next validators to the victim first => %s", m.h, m.r, h8(m.ph.Header.Hash), r))
+			// ... and it votes for that block everywhere, so that the block does not depend on the victim's votes.
+			if bi := w.idxOf(m.h, byzIdx); bi >= 0 {
+				target := string(m.ph.Header.Hash)
+				pkh := string(w.VS(m.h).PubKeyHash)
+				for _, n := range nw.nodes {
+					if n.e == nil {
+						continue
+					}
+					n := n
+					pv := tmconsensus.PrevoteSparseProof{Height: m.h, Round: m.r, PubKeyHash: pkh, Proofs: map[string][]gcrypto.SparseSignature{target: {w.voteSig('p', m.h, m.r, target, bi)}}}
+					n.call("HandlePrevoteProofs", func(ctx context.Context) string { return n.e.HandlePrevoteProofs(ctx, pv).String() })
+					pc := tmconsensus.PrecommitSparseProof{Height: m.h, Round: m.r, PubKeyHash: pkh, Proofs: map[string][]gcrypto.SparseSignature{target: {w.voteSig('c', m.h, m.r, target, bi)}}}
+					n.call("HandlePrecommitProofs", func(ctx context.Context) string { return n.e.HandlePrecommitProofs(ctx, pc).String() })
+				}
+				did = append(did, "adv: Byzantine prevote and precommit for that block to everyone")
+			}
+		}
+		break
+	}
+	// The victim's own proposal of a later height: the Byzantine validator at once proposes a block of its own to
+	// the victim and precommits it there, and supports the victim's block at the other two nodes.
+	for _, m := range nw.msgs {
+		if m.kind != "ph" || m.from != victim || m.h <= initialH || st.attacked[m.h] || w.idxOf(m.h, byzIdx) < 0 || v.curH != m.h {
+			continue
+		}
+		h, r := m.h, m.r
+		st.attacked[h] = true
+		bi := w.idxOf(h, byzIdx)
+		pkh := string(w.VS(h).PubKeyHash)
+		if ph, ok := nw.byzProposal(h, r, "F", victim); ok {
+			r1 := v.call("HandleProposedHeader", func(ctx context.Context) string { return v.e.HandleProposedHeader(ctx, ph).String() })
+			synctest.Wait()
+			target := string(ph.Header.Hash)
+			msg := tmconsensus.PrecommitSparseProof{Height: h, Round: r, PubKeyHash: pkh,
+				Proofs: map[string][]gcrypto.SparseSignature{target: {w.voteSig('c', h, r, target, bi)}}}
+			r2 := v.call("HandlePrecommitProofs", func(ctx context.Context) string { return v.e.HandlePrecommitProofs(ctx, msg).String() })
+			did = append(did, fmt.Sprintf("adv: Byzantine proposal for %d/%d and its own precommit for it to the victim => %s, %s", h, r, r1, r2))
+		}
+		target := string(m.ph.Header.Hash)
+		for _, n := range nw.nodes[:victim] {
+			if n.e == nil {
+				continue
+			}
+			n := n
+			pv := tmconsensus.PrevoteSparseProof{Height: h, Round: r, PubKeyHash: pkh, Proofs: map[string][]gcrypto.SparseSignature{target: {w.voteSig('p', h, r, target, bi)}}}
+			n.call("HandlePrevoteProofs", func(ctx context.Context) string { return n.e.HandlePrevoteProofs(ctx, pv).String() })
+			pc := tmconsensus.PrecommitSparseProof{Height: h, Round: r, PubKeyHash: pkh, Proofs: map[string][]gcrypto.SparseSignature{target: {w.voteSig('c', h, r, target, bi)}}}
+			n.call("HandlePrecommitProofs", func(ctx context.Context) string { return n.e.HandlePrecommitProofs(ctx, pc).String() })
+		}
+		did = append(did, "adv: Byzantine prevote and precommit for the victim's block to nodes 0 and 1")
+	}
+	return did, false
+}
+
 func init() {
 	registry.Execs["net"] = execNet
 }
@@ -647,14 +737,24 @@ func runNet(job vx.Job) (res vx.Result) {
 	if job.Args["adversary"] == "missing-proposal" {
 		adv = &advState{}
 	}
+	var advF *advForged
+	if job.Args["adversary"] == "forged-relay" {
+		advF = &advForged{forged: map[int]bool{}, attacked: map[uint64]bool{}}
+	}
 	steps := 0
 	for ; steps < maxSteps; steps++ {
 		for _, n := range nw.nodes {
 			n.step = steps
 		}
 		consumed := false
-		if adv != nil {
-			did, c := nw.adversary(adv)
+		if adv != nil || advF != nil {
+			var did []string
+			var c bool
+			if adv != nil {
+				did, c = nw.adversary(adv)
+			} else {
+				did, c = nw.adversaryForged(advF)
+			}
 			if len(did) > 0 {
 				synctest.Wait()
 				for _, d := range did {
@@ -726,6 +826,13 @@ func runNet(job vx.Job) (res vx.Result) {
 	}
 	res.NonTrivial = minFin >= 1
 	res.Trace = nw.trace
+	if os.Getenv("VERIF_NODETRACE") != "" {
+		for i, n := range nw.nodes {
+			for _, e := range n.trace {
+				res.Trace = append(res.Trace, fmt.Sprintf("n%d s%d %s %s %d/%d %s %s", i, e.step, e.kind, e.a, e.h, e.r, h8([]byte(e.hash)), e.x))
+			}
+		}
+	}
 	if job.Args["results"] != "1" && len(res.Viol) == 0 {
 		res.Trace = nil
 	}
